@@ -168,7 +168,9 @@ Inductive sop : Type :=
 | OProbe (who : N)
 (* a message built outside the conversation from party [who]'s secrets (the independent reference sender): what the
    call would emit is logged as [who]'s output, [who]'s state does not advance *)
-| OForge (who : N) (now : N) (c : call).
+| OForge (who : N) (now : N) (c : call)
+(* no call: the user changes the policy set of party [who] (the public Policies field) *)
+| OSetPolicy (who : N) (p : N).
 
 (* ---------------- observations ---------------- *)
 Definition tag_class (s : sys) (t from : N) : N :=
@@ -269,6 +271,9 @@ Definition run_op (s : sys) (o : sop) : sys * val :=
       let w := nth (N.to_nat idx) (nth (N.to_nat src - 1) (s_outs s) []) junk_wire in
       apply_call s sender now (CSendTLVs (map (mut_smp_tlv field cls) (smp_tlvs_of w)))
   | OProbe who => (s, secrets_obs (nth_conv s who))
+  | OSetPolicy who p =>
+      let i := (N.to_nat who - 1)%nat in
+      ({| s_convs := set_nth (s_convs s) i ((nth_conv s who) <| c_policies := p |>); s_outs := s_outs s; s_disclosed := s_disclosed s |}, VL [])
   | OForge who now c =>
       let i := (N.to_nat who - 1)%nat in
       let '(_, r) := step now (nth_conv s who) c in
